@@ -81,6 +81,12 @@ type View struct {
 	Bounds   int      `json:"bounds"` // vaHist: index into boundsTable
 	Filter   int      `json:"filter"` // 0 none, 1 allow keys, 2 deny keys
 	Keys     []string `json:"keys"`
+	// Incompat: Agg is deliberately INCOMPATIBLE with the (synchronous)
+	// instruments this view matches (last-value for a non-gauge, sum for a
+	// gauge). The SDK rejects exactly that (view, instrument) pair and reports
+	// an error at instrument creation; the instrument's other matching views
+	// must still receive every measurement.
+	Incompat bool `json:"incompat,omitempty"`
 }
 
 // Op is one measurement (synchronous) or one observation (inside a
@@ -223,8 +229,24 @@ func normalize(c Case) Case {
 		if strings.HasPrefix(strings.ToLower(v.Rename), "inst") {
 			v.Rename = "ren0"
 		}
+		if v.Incompat {
+			// allowed only when every instrument the view matches is synchronous
+			// and incompatible with the aggregation
+			anyMatch := false
+			for i, in := range o.Insts {
+				if v.matches(i, in) {
+					anyMatch = true
+					if observable(in.Kind) || aggCompatible(v.Agg, in.Kind) || (v.Agg != vaLast && v.Agg != vaSum) {
+						v.Incompat = false
+					}
+				}
+			}
+			if !anyMatch {
+				v.Incompat = false
+			}
+		}
 		for i, in := range o.Insts {
-			if v.matches(i, in) && !aggCompatible(v.Agg, in.Kind) {
+			if !v.Incompat && v.matches(i, in) && !aggCompatible(v.Agg, in.Kind) {
 				v.Agg = vaNone
 			}
 		}
@@ -318,6 +340,15 @@ var specialSets = [][]vk.KV{
 	{{K: overflowAttr, T: "str", S: "true"}},
 	{{K: "zz", T: "int", I: 7}},
 	{{K: "zz", T: "int", I: 8}, {K: "a", T: "int", I: 1}},
+	// wide sets (4-5 attributes): a filter keeping a,b and removing c,zz (or
+	// other splits) goes through the general partition path of Set.Filter;
+	// sets that differ only in removed attributes must end up in ONE stream
+	{{K: "a", T: "int", I: 1}, {K: "b", T: "str", S: "x"}, {K: "c", T: "bool", B: true}, {K: "zz", T: "int", I: 7}},
+	{{K: "a", T: "int", I: 1}, {K: "b", T: "str", S: "x"}, {K: "c", T: "bool", B: false}, {K: "zz", T: "int", I: 8}},
+	{{K: "zz", T: "int", I: 9}, {K: "c", T: "bool", B: true}, {K: "b", T: "str", S: "x"}, {K: "a", T: "int", I: 1}},
+	{{K: "a", T: "int", I: 2}, {K: "b", T: "str", S: "y"}, {K: "c", T: "bool", B: true}, {K: "zz", T: "int", I: 7}},
+	{{K: "a", T: "int", I: 1}, {K: "b", T: "str", S: "x"}, {K: "c", T: "bool", B: true}, {K: overflowAttr, T: "bool", B: false}, {K: "zz", T: "int", I: 7}},
+	{{K: "a", T: "int", I: 1}, {K: "b", T: "str", S: "x"}, {K: "c", T: "bool", B: true}, {K: "d", T: "int", I: 1}, {K: "zz", T: "int", I: 7}},
 }
 
 const overflowIdx = nStructured // index of the overflow set in the space
@@ -588,6 +619,30 @@ func genViews(t *rapid.T, insts []Inst, max int) []View {
 		}
 		vs = append(vs, v)
 	}
+	// occasionally one more view whose aggregation is incompatible with the
+	// synchronous instrument it names exactly (never a wildcard: it must not
+	// catch an observable instrument)
+	if len(vs) > 0 && rapid.IntRange(0, 5).Draw(t, "incompatible_view") == 0 {
+		var cands []int
+		for i, in := range insts {
+			if !observable(in.Kind) {
+				cands = append(cands, i)
+			}
+		}
+		if len(cands) > 0 {
+			tgt := rapid.SampledFrom(cands).Draw(t, "incompatible_target")
+			v := View{Keys: []string{}, NameMode: nmExact, Target: tgt, Incompat: true, Agg: vaLast}
+			if gaugeKind(insts[tgt].Kind) {
+				v.Agg = vaSum
+			}
+			if rapid.Bool().Draw(t, "incompatible_renamed") {
+				v.Rename = rapid.SampledFrom(renames).Draw(t, "rename")
+			}
+			pos := rapid.IntRange(0, len(vs)).Draw(t, "incompatible_pos")
+			vs = append(vs[:pos], append([]View{v}, vs[pos:]...)...)
+		}
+	}
+
 	return vs
 }
 
